@@ -172,6 +172,23 @@ CHECKS = {
                 technique="explicit enumeration of all texts up to a bound x all offsets x all positions on the real position.rs, against an independent reference; symbol trees of the lexeme text space",
                 text="All 19 608 (137 257 thorough) texts over a, 2-/3-/4-byte characters, LF, CR, space up to length 5 (6): every boundary offset round-trips and agrees with an independent line/UTF-16 reference, every (line, character) incl. out-of-range ones maps into the document; symbol trees of ~10^5 (10^7) declaration texts and all repository files satisfy the containment rules and never panic.",
                 note="language-server modules mounted unchanged into the harness; mid-surrogate positions only required to stay on their line"),
+    "C18": dict(level="fault_enumeration", engine="seqmc+progspace", design="5/C18",
+                technique="bounded-exhaustive enumeration on the real writer/reader/serializer: every emit method x boundary operand "
+                          "product, every ordered instruction pair x width classes, jump distances and pool sizes around every width "
+                          "boundary; every truncation length and every single-bit flip in declared windows of real packages through "
+                          "the real decoder and code generators",
+                text="All 70 emit methods of BytecodeWriter (parsed from the current source; uncovered list must be empty) x 17 boundary "
+                     "values per operand, 4 900 ordered pairs x 9 width classes, forward/backward jumps and loops over 15 paddings up to "
+                     "70 000 bytes, jump tables up to 300 targets, 19 constant-pool kinds x boundary ids: read back by the real reader "
+                     "and by the Dora reader twin (generated @Test in a copy of pkgs/boots), compared with an independent LEB/offset "
+                     "model. Packages of hello, hand-written programs, generator units, corpus files and boots: decode(encode(p)) "
+                     "re-encodes identically, dumps identically, equals the in-process program, trailing bytes refused; source->exe and "
+                     "source->package->exe give identical assembly and executables. Damage: every truncation length and bit flips in "
+                     "declared windows/strides -> decoder (child processes under an address-space limit) and the real generators on "
+                     "every outcome class: refused with a message or a valid encoding of another program, never a crash.",
+                note="a damaged package that still decodes to an inconsistent program can panic the generators (known finding: nothing "
+                     "validates a decoded program; a checksum would be a format change); non-minimal integer encodings accepted by bincode "
+                     "are classed ok-noncanonical; operands above 2^32-1 out of scope; the Dora-side builder/deserializer are not driven"),
     "C19": dict(level="model_checking", engine="seqmc", design="5/C19",
                 technique="explicit-state exploration (prefix-closed BFS over names) of the real mangler; cap sweep; label sets of emitted assembly",
                 text="All names up to length 4 (5 thorough) over a 16-symbol alphabet are mangled by the real function; "
